@@ -752,7 +752,7 @@ class CCodeGenerator:
             block = self.continue_block_stack[-1]
             self.builder.emit_jump(block)
         else:
-            self.error("Cannot continue here!", stmt)
+            self.error("Cannot continue here!", stmt.location)
         new_block = self.builder.new_block()
         self.builder.set_block(new_block)
 
@@ -763,7 +763,7 @@ class CCodeGenerator:
             block = self.break_block_stack[-1]
             self.builder.emit_jump(block)
         else:
-            self.error("Cannot break here!", stmt)
+            self.error("Cannot break here!", stmt.location)
         new_block = self.builder.new_block()
         self.builder.set_block(new_block)
 
